@@ -286,3 +286,7 @@ func (s MsgSpec) clone() MsgSpec {
 	c.Bcc = append([]string(nil), s.Bcc...)
 	return c
 }
+
+// LoginPromptSets are spellings of the two LOGIN challenges seen in the wild, plus servers that
+// repeat a prompt or send none.
+var LoginPromptSets = [][]string{nil, nil, {"username:", "password:"}, {"User Name\x00", "Password\x00"}, {"Username:", "Username:"}, {"login", "Username:"}, {"", ""}, {"Password:", "Username:"}}
